@@ -114,7 +114,7 @@ def has_live_children(pid):
 def mlr(args, stdin=b"", binary="mlr-verif", cwd=None, env=None, cpu_s=20, watchdog=60.0,
         fsize=64 * MiB, as_bytes=4 << 30, nofile=1024, files=None, keep_cwd=False,
         trace=False, race_log=False, checkpoints=(2.0, 5.0, 15.0), stdin_file=None,
-        out_cap=64 * MiB, wrapper=None, stdout_to=None):
+        out_cap=64 * MiB, wrapper=None, stdout_to=None, wait_children=0.0):
     """Run one mlr process. `args` excludes argv[0]. `files` = {relative name: bytes}
     created in the scratch cwd first. Returns Result (with .cwd left in place iff keep_cwd)."""
     own_cwd = cwd is None
@@ -207,6 +207,12 @@ def mlr(args, stdin=b"", binary="mlr-verif", cwd=None, env=None, cpu_s=20, watch
                 r.verdict = "output-cap"
     else:
         r.rc = rc
+    # mlr does not wait for its pipe-to children; give them a bounded chance to finish reading what
+    # they were sent (they see EOF once mlr has exited) before the session is cleaned up
+    if wait_children and r.verdict == "exited":
+        t1 = time.time()
+        while time.time() - t1 < wait_children and has_live_children(p.pid):
+            time.sleep(0.02)
     # also kill stragglers in the session (children of pipes etc.)
     _killpg(p)
     try:
